@@ -482,6 +482,32 @@ func init() {
 			}
 			return tailCall{cl: cl}, true
 		},
+		// sync.Map: a faithful sequential model (an ordered association list per map object)
+		"(*sync.Map).Load": func(p *Path, fn *ssa.Function, args []Value) (Value, bool) {
+			if i := p.syncMapFind(args[0].(Ptr), args[1]); i >= 0 {
+				return &Agg{E: []Value{p.syncMaps[p.syncMapKey(args[0].(Ptr))][i].v, p.ts().True()}}, true
+			}
+			return &Agg{E: []Value{Iface{}, p.ts().False()}}, true
+		},
+		"(*sync.Map).Store": func(p *Path, fn *ssa.Function, args []Value) (Value, bool) {
+			p.syncMapStore(args[0].(Ptr), args[1], args[2])
+			return nil, true
+		},
+		"(*sync.Map).LoadOrStore": func(p *Path, fn *ssa.Function, args []Value) (Value, bool) {
+			if i := p.syncMapFind(args[0].(Ptr), args[1]); i >= 0 {
+				return &Agg{E: []Value{p.syncMaps[p.syncMapKey(args[0].(Ptr))][i].v, p.ts().True()}}, true
+			}
+			p.syncMapStore(args[0].(Ptr), args[1], args[2])
+			return &Agg{E: []Value{args[2], p.ts().False()}}, true
+		},
+		"(*sync.Map).Delete": func(p *Path, fn *ssa.Function, args []Value) (Value, bool) {
+			k := p.syncMapKey(args[0].(Ptr))
+			if i := p.syncMapFind(args[0].(Ptr), args[1]); i >= 0 {
+				l := p.syncMaps[k]
+				p.syncMaps[k] = append(append([]syncKV(nil), l[:i]...), l[i+1:]...)
+			}
+			return nil, true
+		},
 		"(*sync.Once).Do": func(p *Path, fn *ssa.Function, args []Value) (Value, bool) {
 			ptr := args[0].(Ptr)
 			key := fmt.Sprintf("%d:%d", ptr.Obj, ptr.Off)
@@ -828,4 +854,35 @@ func (p *Path) miniSprintf(args []Value) (string, bool) {
 		return "", false
 	}
 	return out.String(), true
+}
+
+type syncKV struct{ k, v Value }
+
+func (p *Path) syncMapKey(ptr Ptr) string { return fmt.Sprintf("%d:%d", ptr.Obj, ptr.Off) }
+
+func (p *Path) syncMapFind(m Ptr, key Value) int {
+	for i, kv := range p.syncMaps[p.syncMapKey(m)] {
+		eq := p.valueEq(kv.k, key, nil)
+		if eq.IsTrue() {
+			return i
+		}
+		if !eq.IsFalse() {
+			p.unsup("sync.Map with a symbolic key")
+		}
+	}
+	return -1
+}
+
+func (p *Path) syncMapStore(m Ptr, key, val Value) {
+	k := p.syncMapKey(m)
+	if p.syncMaps == nil {
+		p.syncMaps = map[string][]syncKV{}
+	}
+	if i := p.syncMapFind(m, key); i >= 0 {
+		l := append([]syncKV(nil), p.syncMaps[k]...)
+		l[i].v = val
+		p.syncMaps[k] = l
+		return
+	}
+	p.syncMaps[k] = append(append([]syncKV(nil), p.syncMaps[k]...), syncKV{key, val})
 }
